@@ -574,7 +574,10 @@ class BusAuthenticator :
             args = b''
         else:
             cmd, args = line.split(b' ', 1)
-        m = getattr(self, '_auth_' + cmd.decode(), None)
+        try:
+            m = getattr(self, '_auth_' + cmd.decode('ascii'), None)
+        except UnicodeDecodeError:
+            m = None
         if m:
             m(args)
         else:
@@ -617,7 +620,12 @@ class BusAuthenticator :
             return
 
         if response:
-            response = binascii.unhexlify(response.strip()).decode('ascii')
+            try:
+                response = binascii.unhexlify(response.strip()).decode('ascii')
+            except (binascii.Error, UnicodeDecodeError):
+                # not a hex encoded ASCII string: a failed attempt
+                self.reject()
+                return
 
         status, challenge = self.current_mech.step(response)
 
